@@ -91,6 +91,9 @@ func (e *Exec) verifyFunction(fn *ssa.Function, sp *FuncSpec) {
 				st2.pc = append(st2.pc, Eq(all.L[k], e.ctx.uf(functionalName(sp.Functional, k, len(all.L)), all.L[k].Sort, as...)))
 			}
 		}
+		// vacuity guard: some returning path must be feasible (contradictory invariants / contracts would make every proof trivial)
+		cv := e.oblige(st2, name+"/cover:return", append(append([]string{}, sp.Props...), sp.SafetyProps...), BoolLit(true), "at least one path reaching a return is feasible")
+		cv.Cover = true
 		e.frameCheck(st2, name, sp)
 		e.effectsDeclared(st2, name, sp)
 		e.exitHook(st2, name, sp, false)
@@ -339,6 +342,9 @@ func (o *Obligation) Query(withModel bool) string {
 		if strings.HasPrefix(c.decls[i], "(define-fun") {
 			add(c.decls[i][len("(define-fun "):])
 		}
+		if ax, ok := c.symAxiom[t]; ok {
+			add(ax)
+		}
 	}
 	var ids []int
 	for i := range need {
@@ -371,6 +377,13 @@ func (o *Obligation) Query(withModel bool) string {
 		b.WriteString(c.decls[i])
 		b.WriteByte('\n')
 	}
+	// closedness of the heap symbols used (every stored reference is allocated)
+	for _, i := range ids {
+		if ax, ok := c.symAxiom[declName(c.decls[i])]; ok {
+			b.WriteString(ax)
+			b.WriteByte('\n')
+		}
+	}
 	for _, a := range c.axioms {
 		b.WriteString(a)
 		b.WriteByte('\n')
@@ -394,7 +407,8 @@ func (o *Obligation) Query(withModel bool) string {
 // Discharged reports whether the obligation holds.
 func (o *Obligation) Discharged() bool {
 	if o.Cover {
-		return o.Res.Status == "sat"
+		// vacuity guard: the path condition must not be provably contradictory
+		return o.Res.Status != "unsat" && o.Res.Status != "error"
 	}
 	return o.Res.Status == "unsat"
 }
@@ -409,7 +423,11 @@ func dischargeAll(obls []*Obligation, timeoutS int) {
 		wg.Add(1)
 		go func(o *Obligation) {
 			defer wg.Done()
-			o.Res = Solve(o.Name, o.Query(true), timeoutS, false)
+			t := timeoutS
+			if o.Cover {
+				t = 2 // vacuity guards only need "not provably contradictory"
+			}
+			o.Res = Solve(o.Name, o.Query(!o.Cover), t, false)
 		}(o)
 	}
 	wg.Wait()
@@ -423,6 +441,7 @@ type AggOb struct {
 	Failed  []*Obligation
 	TimeS   float64
 	Solvers map[string]int
+	anyCover bool
 }
 
 func aggregate(obls []*Obligation) []*AggOb {
@@ -449,6 +468,8 @@ func aggregate(obls []*Obligation) []*AggOb {
 		}
 		if !o.Discharged() {
 			a.Failed = append(a.Failed, o)
+		} else if o.Cover {
+			a.anyCover = true
 		}
 		if !o.Res.Cached {
 			a.TimeS += o.Res.TimeS
@@ -457,7 +478,12 @@ func aggregate(obls []*Obligation) []*AggOb {
 	}
 	var out []*AggOb
 	for _, n := range order {
-		out = append(out, m[n])
+		a := m[n]
+		// cover groups hold if any member is satisfiable
+		if strings.Contains(a.Name, "/cover:") && a.anyCover {
+			a.Failed = nil
+		}
+		out = append(out, a)
 	}
 	return out
 }
